@@ -35,7 +35,10 @@ def gen_upd_case(rng):
             items = list(c.items())
             rng.shuffle(items)
             c = dict(items)
-        form = rng.choice(['dict', 'gdict', 'gdict+', 'ini', 'ini+', 'file'])
+        form = rng.choice(['dict', 'gdict', 'gdict+', 'ini', 'ini+', 'file', 'setitem'])
+        if form == 'setitem':
+            k = rng.choice(KEYS + ['environment'])
+            c = {k: rng.choice(VALUES + ['production'])}
         other = {}
         if form in ('gdict+', 'ini+', 'file') and rng.random() < 0.7:
             other = {'/': {'k1': 'S:/', 'environment': 'production'}, '/a': {'log.screen': True}}
@@ -74,7 +77,10 @@ def run_upd_real(case):
             sections = dict(st['other'])
             sections['global'] = c
             try:
-                if form == 'dict':
+                if form == 'setitem':
+                    for k, v in c.items():
+                        cfg[k] = v
+                elif form == 'dict':
                     cfg.update(c)
                 elif form in ('gdict', 'gdict+'):
                     cfg.update({k: dict(v) for k, v in sections.items()})
@@ -129,9 +135,16 @@ def check_upd_cases(ctx, cases, compare_model=True):
         cfg = {}
         for st, o in zip(case['upd']['steps'], obs):
             ctx.count('upd:form:' + st['form'])
-            ctx.count('upd:env:' + ('none' if 'environment' not in st['conf'] else
-                                    ('known' if st['conf']['environment'] in envs else 'unknown/falsy')))
-            want = ref_update(envs, cfg, st['conf'])
+            if st['form'] != 'setitem':
+                ctx.count('upd:env:' + ('none' if 'environment' not in st['conf'] else
+                                        ('known' if st['conf']['environment'] in envs else 'unknown/falsy')))
+            if st['form'] == 'setitem':
+                # one entry assigned: stored as it is (no environment template), handed to its namespace
+                new = dict(cfg)
+                new.update(st['conf'])
+                want = (new, dict(st['conf']))
+            else:
+                want = ref_update(envs, cfg, st['conf'])
             if want is None:
                 if o['err'] != 'KeyError':
                     ctx.oracle_fail(case, 'update naming the unknown environment %r: %s, config %s'
@@ -147,6 +160,12 @@ def check_upd_cases(ctx, cases, compare_model=True):
                     ctx.oracle_fail(case, 'cherrypy.config.update(%s as %s) handed %s to the namespaces, the update (with its environment) holds %s'
                                     % (st['conf'], st['form'], o['handed'], routed), 'config_update_namespaces')
             form = 'F' if st['form'] == 'dict' else 'S'
+            if st['form'] == 'setitem':
+                (k, v), = st['conf'].items()
+                lines.append('cfgset %s %s %s' % (T.enc_conf(cfg) if cfg else 'E', T.enc_text(k), T.enc_val(v)))
+                meta.append((case, o))
+                cfg = dict(o['config'])
+                continue
             if form == 'F':
                 payload = T.enc_conf(st['conf']) if st['conf'] else 'E'
             else:
